@@ -206,6 +206,12 @@ def run(ctx):
                             "x assignments (all 3^m for m<=2), redundant brackets through the parser, all resolutions of UNKNOWN for definite outcomes; "
                             "distinct_nontrivial counts distinct (expression, position, transformation) relations checked")
     ctx.sample({"expression": names[0], "example_variant": "hint-and at every U/O/X operand, attach-fc at every RC-carrying sub-expression, swap at every U/O/X"})
+    # the relations presuppose that an evaluation sees ITS assignment: several evaluations with different assignments in flight at once on ahbicht's own
+    # content-evaluation-result based evaluators each report what they report alone (implementation-side oracle shared with C08 / C12)
+    from vlib import cerconc, evalimpl
+
+    ctx.add_eval(cerconc.mixed_oracle(ctx, "C05"))
+    evalimpl._configured = False  # pylint: disable=protected-access
     from vlib import latency
 
     ctx.add_eval(latency.rc_latency_oracle(ctx, cases, 12 if ctx.quick else 150,
